@@ -371,6 +371,94 @@ CPReplace(t, f, old, newKind, newT, newF, count) ==
 
 ---------------------------------------------------------------------------
 (***************************************************************************)
+(* set_ansi_str(s): ParsedAnsiControlSequenceString(s, False, 'm'), then   *)
+(* per sequence parse_graphic_sequence / settings_to_dict and the          *)
+(* remove/apply bookkeeping - transcribed for sequence bodies made of      *)
+(* digits and ';' (items are <<"i", n>> or <<"s">> for an empty field).    *)
+(***************************************************************************)
+BodyItems(body) ==
+  LET parts == SplitOn(body, SEMI) IN
+  [k \in DOMAIN parts |-> IF AllDigits(parts[k]) THEN <<"i", Num(parts[k])>> ELSE <<"s", 0>>]
+StrictBody(body) == \A k \in DOMAIN body : IsDigit(body[k]) \/ body[k] = SEMI
+
+\* does items[idx..] start with <<c, mode>> ?
+StartsFn(items, idx, c, mode) ==
+  idx + 1 <= Len(items) /\ items[idx] = <<"i", c>> /\ items[idx + 1] = <<"i", mode>>
+
+\* parse_graphic_sequence(body, add_erroneous=False) -> sequence of parameter lists (one per returned setting)
+RECURSIVE PgsLoop(_, _, _, _)
+PgsLoop(items, idx, curSet, leftIn) ==
+  IF idx > Len(items) THEN << >>
+  ELSE IF items[idx][1] # "i" THEN PgsLoop(items, idx + 1, curSet, leftIn)
+  ELSE
+    LET v == items[idx][2]
+        starting == curSet = << >>
+        fnLen == IF StartsFn(items, idx, v, 5) /\ IsExt(v) THEN 3
+                 ELSE IF StartsFn(items, idx, v, 2) /\ IsExt(v) THEN 5 ELSE 0
+        skip == starting /\ IsExt(v) /\ fnLen = 0
+        left0 == IF starting THEN (IF fnLen > 0 THEN fnLen ELSE 1) ELSE leftIn
+        set1 == curSet \o <<v>>
+        left1 == left0 - 1
+    IN IF skip THEN PgsLoop(items, idx + 1, curSet, leftIn)
+       ELSE IF left1 <= 0
+            THEN (IF SingleGroup(set1) \/ set1 = <<0>> THEN << set1 >> ELSE << >>) \o PgsLoop(items, idx + 1, << >>, 0)
+            ELSE PgsLoop(items, idx + 1, set1, left1)
+CPPgs(body) == IF body = << >> THEN << <<0>> >> ELSE PgsLoop(BodyItems(body), 1, << >>, 0)
+
+\* the effect dictionary: ordered << <<group, params>> >>
+PDictHas(d, g) == \E k \in DOMAIN d : d[k][1] = g
+PDictGet(d, g) == d[CHOOSE k \in DOMAIN d : d[k][1] = g][2]
+PDictSet(d, g, ps) == IF PDictHas(d, g) THEN [k \in DOMAIN d |-> IF d[k][1] = g THEN <<g, ps>> ELSE d[k]] ELSE d \o << <<g, ps>> >>
+LibGroupOfPs(ps) == IF ps[1] = 0 THEN "reset" ELSE GroupOf(ps[1])
+RECURSIVE PToDict(_, _, _)
+PToDict(sets, i, d) ==
+  IF i > Len(sets) THEN d
+  ELSE LET ps == sets[i] IN
+       IF ps[1] = 0 THEN PToDict(sets, i + 1, << >>)
+       ELSE IF ps[1] \in (ClearCodes \ {10}) THEN PToDict(sets, i + 1, SelectSeq(d, LAMBDA e : e[1] # GroupOf(ps[1])))
+       ELSE PToDict(sets, i + 1, PDictSet(d, GroupOf(ps[1]), ps))
+
+TidOfPs(ps) == LET text == JoinDec(ps, 1) IN
+               IF \E i \in TextIds : TextTable[i] = text THEN CHOOSE i \in TextIds : TextTable[i] = text ELSE 0
+
+\* insertion sort of dictionary entries by their position in the parsed sequence (stable; absent = -1)
+SeqOrderOf(sets, g) == LET hits == {i \in DOMAIN sets : LibGroupOfPs(sets[i]) = g} IN
+                       IF hits = {} THEN -1 ELSE (CHOOSE i \in hits : \A j \in hits : j <= i) - 1
+RECURSIVE StableSortBy(_, _)
+StableSortBy(d, sets) ==
+  IF d = << >> THEN << >>
+  ELSE LET keys == {SeqOrderOf(sets, d[k][1]) : k \in DOMAIN d}
+           mn == CHOOSE x \in keys : \A y \in keys : x <= y
+           first == CHOOSE k \in DOMAIN d : SeqOrderOf(sets, d[k][1]) = mn /\ \A j \in 1..(k-1) : SeqOrderOf(sets, d[j][1]) # mn
+       IN <<d[first]>> \o StableSortBy(SubSeq(d, 1, first - 1) \o SubSeq(d, first + 1, Len(d)), sets)
+
+RECURSIVE SasLoop(_, _, _, _, _, _)
+SasLoop(t, f, seqs, j, cur, base) ==       \* seqs: << <<pos, body, term>> ... >> in order
+  IF j > Len(seqs) THEN f
+  ELSE LET key == seqs[j][1] IN
+    IF key >= Len(t) THEN SasLoop(t, f, seqs, j + 1, cur, base)
+    ELSE
+      LET sets == CPPgs(seqs[j][2])
+          new == PToDict(sets, 1, cur)
+          ordered == StableSortBy(new, sets)
+          changed == SelectSeq(ordered, LAMBDA e : ~PDictHas(cur, e[1]) \/ PDictGet(cur, e[1]) # e[2])
+          replaced == SelectSeq(ordered, LAMBDA e : PDictHas(cur, e[1]) /\ PDictGet(cur, e[1]) # e[2])
+          gone == SelectSeq(cur, LAMBDA e : ~PDictHas(new, e[1]))
+          remTids == {TidOfPs(PDictGet(cur, replaced[k][1])) : k \in DOMAIN replaced} \cup {TidOfPs(gone[k][2]) : k \in DOMAIN gone}
+          f1 == IF remTids = {} THEN f ELSE CPRemove(t, f, FALSE, remTids, <<key>>, << >>)
+          fresh == [k \in DOMAIN changed |-> <<base + k, TidOfPs(changed[k][2])>>]
+          f2 == IF changed = << >> THEN f1 ELSE CPApply(t, f1, fresh, <<key>>, << >>, TRUE)
+      IN SasLoop(t, f2, seqs, j + 1, new, base + Len(changed) + 1)
+
+CPSetAnsiStrFrom(input, base) ==
+  LET p == ParseCS(input, FALSE, << <<LOWM>> >>) IN
+  << p.text, SasLoop(p.text, EmptyTab, p.seqs, 1, << >>, base) >>
+CPSetAnsiStr(input) == CPSetAnsiStrFrom(input, 0)
+InputStrict(input) ==
+  LET p == ParseCS(input, FALSE, << <<LOWM>> >>) IN \A j \in DOMAIN p.seqs : StrictBody(p.seqs[j][2])
+
+---------------------------------------------------------------------------
+(***************************************************************************)
 (* DRIFT detection on recorded events: the transcribed operator applied to *)
 (* the LOGGED pre-table must give the LOGGED post-table.  v.f is the raw   *)
 (* table as the recorder read it: << <<key, add, rem>>, ... >>.            *)
@@ -384,7 +472,10 @@ AllInsts(f) == UNION {{f[k].add[i][1] : i \in DOMAIN f[k].add} \cup {f[k].rem[i]
 HasTab(v) == v.k \in {"S", "A"}
 
 DriftClauses(e, pre, post) ==
-  IF e.out # "ok" \/ e.r = 0 \/ ~HasTab(pre[e.r]) THEN None
+  IF e.out = "ok" /\ e.op = "new" /\ e.a.src = 0 /\ e.a.S = << >> /\ ~NoEsc(e.a.text) /\ InputStrict(e.a.text) THEN
+     LET w == post[e.res[1]] g == CPSetAnsiStr(e.a.text) IN
+     Cl("drift.parse", TRUE, w.t = g[1] /\ SameTab(TabOf(w.f), g[2]))
+  ELSE IF e.out # "ok" \/ e.r = 0 \/ ~HasTab(pre[e.r]) THEN None
   ELSE LET v == pre[e.r] n == Len(v.t) f == TabOf(v.f) IN
   CASE e.op = "apply" /\ HasResult(e) ->
          LET w == ResultOf(e, post) g == TabOf(w.f)
@@ -428,6 +519,9 @@ DriftClauses(e, pre, post) ==
              g == CPReplace(v.t, f, e.a.old, u.k, u.t, IF HasTab(u) THEN TabOf(u.f) ELSE EmptyTab, e.a.count)
              matched == Find(v.t, e.a.old, 0, n) >= 0 /\ e.a.count # 0
          IN Cl("drift.replace", matched /\ (f # EmptyTab \/ u.f # << >>), matched => (w.t = g[1] /\ SameTab(TabOf(w.f), g[2])))
+    [] e.op = "reparse" /\ HasResult(e) /\ NoEsc(v.t) /\ InputStrict(v.q) ->
+         LET w == ResultOf(e, post) g == CPSetAnsiStr(v.q) IN
+         Cl("drift.parse", f # EmptyTab, w.t = g[1] /\ SameTab(TabOf(w.f), g[2]))
     [] e.op = "copy" /\ HasResult(e) ->
          Cl("drift.copy", f # EmptyTab, TabOf(ResultOf(e, post).f) = f)
     [] OTHER -> None
